@@ -1479,8 +1479,56 @@ func (w *World) htmlReadsCallersBytes(P string) {
 		})
 	}
 	w.check(P, "R17.6", "html.Parse reads the caller's bytes", rh.Pos(), n > 0 && direct, fmt.Sprintf("calls of html.Parse: %d; each is given ReadHtml's own reader parameter: %v", n, direct))
+	// the walk starts at the root of that tree: the node the adapter is constructed with is html.Parse's result, or is
+	// reached from it by following FirstChild/NextSibling links only - not picked by a search that skips nodes
+	startOK, startWhy := false, "no adapter value built from the parse result"
+	allInstrs(rh, func(in ssa.Instruction) {
+		st, ok := in.(*ssa.Store)
+		if !ok {
+			return
+		}
+		fa, ok := st.Addr.(*ssa.FieldAddr)
+		if !ok {
+			return
+		}
+		if _, isAlloc := fa.X.(*ssa.Alloc); !isAlloc {
+			return
+		}
+		pt, ok := st.Val.Type().(*types.Pointer)
+		if !ok {
+			return
+		}
+		if nn, ok := pt.Elem().(*types.Named); !ok || nn.Obj().Name() != "Node" || nn.Obj().Pkg() == nil || nn.Obj().Pkg().Path() != "golang.org/x/net/html" {
+			return
+		}
+		// follow the value back to the Parse call
+		v := st.Val
+		startOK, startWhy = false, "the first node of the walk is "+describe(v)
+		for steps := 0; steps < 4; steps++ {
+			if ex, isEx := v.(*ssa.Extract); isEx && ex.Index == 0 {
+				if c, isC := ex.Tuple.(*ssa.Call); isC && staticCallee(c) != nil && strings.HasPrefix(funcFullName(staticCallee(c)), "golang.org/x/net/html.Parse") {
+					startOK, startWhy = true, "the result of html.Parse (through unconditional FirstChild/NextSibling links at most)"
+				}
+				break
+			}
+			ld, isLd := v.(*ssa.UnOp)
+			if !isLd || ld.Op != token.MUL {
+				break
+			}
+			f2, isF := ld.X.(*ssa.FieldAddr)
+			if !isF {
+				break
+			}
+			name := fieldName(f2)
+			if name != "FirstChild" && name != "NextSibling" {
+				break
+			}
+			v = f2.X
+		}
+	})
+	w.check(P, "R17.6", "the walk starts at the root of the parse tree", rh.Pos(), startOK, startWhy+" (a search for the first element skips comments in front of <html>)")
 	w.check(P, "R17.6", "the HTML5 algorithm runs with its default options", rh.Pos(), n > 0 && opts, fmt.Sprintf("html.Parse, or html.ParseWithOptions without options (scripting enabled, no fragment context): %v (with scripting disabled the content of <noscript> is parsed as markup instead of one text node)", opts))
-	w.floor(P, "R17.6", 2)
+	w.floor(P, "R17.6", 3)
 }
 
 // defaultParseOptions: the variadic option list is empty, or holds only ParseOptionEnableScripting(true).
